@@ -146,13 +146,13 @@ def check(obj, sch):
     pins = []
     for n in sch.nets:
         if n.sourcePort is not None and not is_virtual(n.source):
-            pins.append((n.getStartPoint(), n.wire, n.source.name + '.' + getattr(n.sourcePort, 'name', '?')))
+            pins.append((n.getStartPoint(), n.wire, n.source.name + '.' + getattr(n.sourcePort, 'name', '?'), _sym_class(n.source)))
         if n.sinkPort is not None and not is_virtual(n.sink):
-            pins.append((n.getEndPoint(), n.wire, n.sink.name + '.' + getattr(n.sinkPort, 'name', '?')))
+            pins.append((n.getEndPoint(), n.wire, n.sink.name + '.' + getattr(n.sinkPort, 'name', '?'), _sym_class(n.sink)))
     for n in sch.nets:
         if n.x is None or len(n.x) < 2:
             continue
-        for (px, py), w, pname in pins:
+        for (px, py), w, pname, pcls in pins:
             if w is n.wire:
                 continue
             for i in range(len(n.x) - 1):
@@ -163,7 +163,7 @@ def check(obj, sch):
                         kind = 'marker_path' if (is_virtual(n.source) or is_virtual(n.sink)) else 'direct_path'
                         seg = 'vertical' if x0 == x1 else ('horizontal' if y0 == y1 else 'diagonal')
                         at_end = (px, py) in ((n.x[0], n.y[0]), (n.x[-1], n.y[-1]))
-                        return ('foreign_pin_touched:{}:{}:{}'.format(kind, seg, 'at_end' if at_end else 'mid'),
+                        return ('foreign_pin_touched:{}:{}:{}:{}'.format(kind, seg, 'at_end' if at_end else 'mid', pcls),
                                 'the drawn path of wire {} runs through pin {} of wire {} at {}'.format(
                             n.wire.name, pname, w.name, (px, py)))
     # (4) routed paths end on the pins
@@ -176,6 +176,12 @@ def check(obj, sch):
                 return ('route_endpoints', 'routed path of wire {} runs {}..{} but its pins are at {} and {}'.format(
                     n.wire.name, (n.x[0], n.y[0]), (n.x[-1], n.y[-1]), sp, ep))
     return None
+
+
+def _sym_class(sym):
+    """class of the circuit object a symbol stands for (the symbol of an Add, of a Xor ...), for failure signatures"""
+    o = getattr(sym, 'obj', None)
+    return type(o).__name__ if o is not None else type(sym).__name__
 
 
 def nontrivial(obj, sch):
